@@ -474,8 +474,10 @@ impl Runner {
                             let _ = std::fs::write(&p, b"i am a file\n");
                             format!("{}/prog.lua", p)
                         }
-                        "O9-dev-null" => "/dev/null".to_string(),
-                        _ => "/dev/full".to_string(),
+                        // device targets are private nodes next to the scratch tree (mknod c 1 3 / c 1 7): the compiler
+                        // under test may be wrong enough to delete or replace its target, and the checks run as root
+                        "O9-dev-null" => private_device(root, "null", 3),
+                        _ => private_device(root, "full", 7),
                     };
                     args.push("-o".into());
                     args.push(t.clone());
@@ -592,7 +594,7 @@ impl Runner {
         }
         tree(Path::new(root), Path::new(root), &mut obs.tree_after);
         if let Some(t) = &target_path {
-            if t != "/dev/full" && t != "/dev/null" && Path::new(t).is_file() {
+            if t != "/dev/full" && t != "/dev/null" && !t.contains(".devs/") && Path::new(t).is_file() {
                 obs.target_bytes = std::fs::read(t).ok();
             }
         }
@@ -1311,6 +1313,26 @@ pub fn replay(doc: &J, id: &str) -> i32 {
 
 // ------------------------------------------------------------------------------------
 // C16 at the process level: unseeded hashing (real entropy per process), environment, cwd
+
+/// A character device node of our own (major 1, the given minor) next to the scratch tree; the system's node only
+/// if one cannot be made (not root: then the process under test cannot remove the system's node either).
+fn private_device(root: &str, name: &str, minor: u32) -> String {
+    use std::os::unix::fs::FileTypeExt;
+    let dir = format!("{}.devs", root.trim_end_matches('/'));
+    let path = format!("{}/{}", dir, name);
+    let is_dev = |p: &str| std::fs::metadata(p).map(|m| m.file_type().is_char_device()).unwrap_or(false);
+    if is_dev(&path) {
+        return path;
+    }
+    let _ = std::fs::create_dir_all(&dir);
+    let _ = std::fs::remove_file(&path);
+    let made = Command::new("mknod").arg("-m").arg("666").arg(&path).arg("c").arg("1").arg(minor.to_string()).stdin(Stdio::null()).stdout(Stdio::null()).stderr(Stdio::null()).status().map(|s| s.success()).unwrap_or(false);
+    if made && is_dev(&path) {
+        path
+    } else {
+        format!("/dev/{}", name)
+    }
+}
 
 /// The CPUs this process may run on (`Cpus_allowed_list` of /proc/self/status), narrowed to the first one or two.
 /// None when the list cannot be read or `taskset` does not work here: the process then runs unpinned.
